@@ -265,7 +265,7 @@ MEMO_FILES = FILES + ["textx/model_params.py", "textx/registration.py", "textx/c
 MEMO_ATTRIB = [("textx/registration.py", "", ("C26",)), ("textx/cli/check.py", "", ("C30",)), ("textx/cli/generate.py", "", ("C30",)), (LANG, "", ("C16",)), ("textx/export.py", "", ("C29",)), (MM, "", ("C16",)), (MODEL, "", ("C16",))]
 MEMO_EXCEPT = {   # (file, function, container) -> {input chain: reason}   (confirmed by reading; never wider than one input of one memo)
     (RREL, "RRELZeroOrMore.get_next_matches", "prevent_doubles"): {
-        "ilookup_list": "always a suffix of the one name list handed to get_next_matches, so its length (which is in the key) determines it",
+        "ilookup_list": ("always a suffix of the one name list handed to get_next_matches, so its length determines it", "len(ilookup_list)"),
         "imatched_path": "de-duplication of different paths that reach the same object with the same remaining name parts is the purpose of the set (the first path wins)"},
 }
 def _memo_props(rel, q):
@@ -358,7 +358,8 @@ def _memo_scan(t, rel):
                 if key is not None: _inputs(fi, key, st, kin, set(), skip, key_mode=True)
                 missing = sorted(c for c in vin if not invariant(c) and c != dchain and c not in tested and not (c in kin or any(c.startswith(k + ".") for k in kin)))
                 exc = MEMO_EXCEPT.get((rel, qualname(fn), dtext), {})
-                missing = [c for c in missing if c not in exc]
+                ktxt_ = ast.unparse(key).replace(" ", "") if key is not None else ""
+                missing = [c for c in missing if not (c in exc and (not isinstance(exc[c], tuple) or exc[c][1].replace(" ", "") in ktxt_))]          # an exception may be tied to a key fragment
                 # a key chain k.x also covers input k.x.y; an input `k` whole is covered only by k itself (or id(k))
                 res.append((st, dtext, key, life, missing))
     return res
